@@ -1,4 +1,6 @@
 def run(ctx):
-    from . import frame_proofs
+    from . import frame_proofs, token_proofs
 
-    return frame_proofs.run(ctx, "C14")
+    a = frame_proofs.run(ctx, "C14")
+    b = token_proofs.run(ctx, "C14")
+    return a + " " + b
